@@ -38,7 +38,7 @@ OUTSIDE = ["d > 5, cycles > 7", "non-computational initial states (PLUS/MINUS/..
 ASSUMPTIONS = ["the tableau stands for Stim's simulator (validated against stim's sampler on the concrete twin and on random Clifford circuits in every run)",
                "protocol: heralding measurements give 0; ancilla j's t-th parity measurement gives a_j xor (t odd ? b_left xor b_right : 0); data refocusing flips after every cycle but the "
                "last (when refocusing is on); final data value b_i xor (number of flips mod 2); with 0 cycles the ancilla's single 'final' measurement gives a_j"]
-REQUIRED_REACH = ['C09.record', 'C09.detectors.deterministic', 'C09.detectors.count', 'C09.observable.deterministic', 'C09.structure', 'C09.tableau_vs_stim']
+REQUIRED_REACH = ['C09.record', 'C09.detectors.deterministic', 'C09.detectors.lookback', 'C09.detectors.count', 'C09.observable.deterministic', 'C09.structure', 'C09.tableau_vs_stim']
 EXHAUSTIVE = {'quick': True, 'thorough': True}
 JOB_OPTS = {'quick': dict(max_paths=50, max_seconds=900), 'thorough': dict(max_paths=50, max_seconds=3000)}
 
@@ -242,6 +242,7 @@ def run(ctx, params):
                                                    only_ancilla_state_terms_missing=_only_ancilla_missing(t.record, want, anc_q)))
         rnd = lambda f: any(v.startswith('m') for v in f[1])  # noqa: E731
         ctx.check('C09.detectors.deterministic', not any(rnd(f) for f in dets), dict(info, random_detectors=[i for i, f in enumerate(dets) if rnd(f)][:8], random_measurements=t.random_measurements))
+        ctx.check('C09.detectors.lookback', not t.bad_lookbacks, dict(info, outside_record=t.bad_lookbacks[:6]))
         ctx.check('C09.detectors.count', len(dets) == (d - 1) * (cycles + 1), dict(info, detectors=len(dets), expected=(d - 1) * (cycles + 1)))
         ctx.check('C09.observable.deterministic', len(obs) >= 1 and not any(rnd(f) for f in obs), dict(info, observables=len(obs)))
         # detectors are silent for the prescribed record: parity independent of everything but possibly the initial state, and equal to its noiseless value
